@@ -2058,7 +2058,50 @@ func runP13(p *an.Prog, r *an.Result) {
 				}
 				return false
 			}
-			if an.AllPathsGuarded(call.Block(), pred) {
+			// or by boolean inference over the dominating tests: a CanX answer kept in a variable and compared
+			// with another (`aU == bU` true and `aU` true give `bU`)
+			inferred := func() bool {
+				known := map[ssa.Value]bool{}
+				var eqs [][3]interface{}
+				for _, g := range an.GuardsAtInstr(in) {
+					if b, ok := g.Cond.(*ssa.BinOp); ok && (b.Op == token.EQL || b.Op == token.NEQ) && isBoolType(b.X.Type()) && isBoolType(b.Y.Type()) {
+						eqs = append(eqs, [3]interface{}{b.X, b.Y, g.True == (b.Op == token.EQL)})
+						continue
+					}
+					known[g.Cond] = g.True
+				}
+				for round := 0; round < 4; round++ {
+					for _, e := range eqs {
+						x, y, eq := e[0].(ssa.Value), e[1].(ssa.Value), e[2].(bool)
+						if cb, ok := an.ConstBool(x); ok {
+							known[y] = cb == eq
+						}
+						if cb, ok := an.ConstBool(y); ok {
+							known[x] = cb == eq
+						}
+						if v, ok := known[x]; ok {
+							known[y] = v == eq
+						}
+						if v, ok := known[y]; ok {
+							known[x] = v == eq
+						}
+					}
+				}
+				for v, val := range known {
+					if !val {
+						continue
+					}
+					if c := an.CallOf(v); c != nil && an.CallName(c) == cl.can && len(c.Args) == 1 {
+						for _, a := range alike {
+							if same(c.Args[0], a) {
+								return true
+							}
+						}
+					}
+				}
+				return false
+			}
+			if an.AllPathsGuarded(call.Block(), pred) || inferred() {
 				r.OK(name, construct, an.InstrPos(in), "every path here has found the value (or one of the same kind) to be "+cl.what)
 			} else {
 				r.Bad(name, construct, an.InstrPos(in), fmt.Sprintf("%s calls %s on a value not known to be %s on every path: reflect panics for any other kind (a *reflect.ValueError, which no recover boundary converts)", an.FuncName(fn), cn, cl.what))
@@ -2423,4 +2466,9 @@ func returnsKeyListOf(p *an.Prog, fn *ssa.Function) bool {
 		})
 	}
 	return ok
+}
+
+func isBoolType(t types.Type) bool {
+	b, ok := t.Underlying().(*types.Basic)
+	return ok && b.Info()&types.IsBoolean != 0
 }
